@@ -818,7 +818,7 @@ impl Scenario for C10 {
     fn default_runs(tier: Tier) -> u64 {
         match tier {
             Tier::Quick => 40_000,
-            Tier::Thorough => 500_000,
+            Tier::Thorough => 300_000,
         }
     }
     fn gen(rng: &mut Rng, tier: Tier, _run: u64) -> C10Trace {
